@@ -35,6 +35,10 @@ var entities = map[string]entDef{
 		{"FindManyMultiTwoBySkus", [][]string{{"sku"}}, []string{"String"}}}},
 	"Req":      {Requires: true, Keys: []keyDef{{"FindReqByID", [][]string{{"id"}}, []string{"ID"}}}},
 	"MultiReq": {Multi: true, Requires: true, Keys: []keyDef{{"FindManyMultiReqByIDs", [][]string{{"id"}}, []string{"ID"}}}},
+	"Tri": {Keys: []keyDef{{"FindTriByUpcAndRegion", [][]string{{"upc"}, {"region"}}, []string{"String", "String"}},
+		{"FindTriBySku", [][]string{{"sku"}}, []string{"String"}}, {"FindTriByID", [][]string{{"id"}}, []string{"ID"}}}},
+	"MultiTri": {Multi: true, Keys: []keyDef{{"FindManyMultiTriByUpcAndRegions", [][]string{{"upc"}, {"region"}}, []string{"String", "String"}},
+		{"FindManyMultiTriBySkus", [][]string{{"sku"}}, []string{"String"}}, {"FindManyMultiTriByIDs", [][]string{{"id"}}, []string{"ID"}}}},
 }
 
 // Query returns the _entities query of a requires mode. Only fields whose value the
@@ -48,7 +52,8 @@ func Query(mode string) string {
 		req, mreq = "id cost", "id cost"
 	}
 	return `query($r:[_Any!]!){_entities(representations:$r){__typename ... on Single{id v} ... on TwoKeys{id sku v} ` +
-		`... on Nested{owner{id v} slot v} ... on Multi{id v} ... on MultiTwo{id sku v} ... on Req{` + req + `} ... on MultiReq{` + mreq + `}}}`
+		`... on Nested{owner{id v} slot v} ... on Multi{id v} ... on MultiTwo{id sku v} ... on Req{` + req + `} ... on MultiReq{` + mreq + `} ` +
+		`... on Tri{upc region sku id v} ... on MultiTri{upc region sku id v}}}`
 }
 
 // lookup walks a key path; ok=false when a field is missing or an inner value is not an object.
@@ -92,10 +97,20 @@ func leaf(kind string, v any) (string, bool) {
 }
 
 // lenientLeaf: values the GraphQL spec does not accept for the scalar but gqlgen's scalars
-// document as coercible (booleans and numbers to ID / String). Whether such a key is
+// document as coercible (booleans and numbers to ID / String; null to "", "null", 0). Whether such a key is
 // accepted is input coercion (property C02), not index bookkeeping: the reference accepts
 // either answer for them (null + error, or the entity of the coerced key).
 func lenientLeaf(kind string, v any) (string, bool) {
+	if v == nil { // a null component of a key that is not all null is read as the zero value
+		switch kind {
+		case "String":
+			return "", true
+		case "ID":
+			return "null", true
+		case "Int":
+			return "0", true
+		}
+	}
 	if kind != "ID" && kind != "String" {
 		return "", false
 	}
@@ -186,6 +201,20 @@ func valueJSON(mode, typ string, kd keyDef, args []string, w int) string {
 			return `{"__typename":"` + typ + `","id":` + q(args[0]) + `,"sku":` + q("sku-of-"+args[0]) + `,"v":` + q(typ+"/id="+args[0]) + `}`
 		}
 		return `{"__typename":"` + typ + `","id":` + q("id-of-"+args[0]) + `,"sku":` + q(args[0]) + `,"v":` + q(typ+"/sku="+args[0]) + `}`
+	case "Tri", "MultiTri":
+		var upc, region, sku, id, v string
+		switch kd.Paths[0][0] {
+		case "upc": // compound key upc region
+			upc, region = args[0], args[1]
+			sku, id, v = "sku-of-"+upc+"/"+region, "id-of-"+upc+"/"+region, typ+"/upc="+upc+",region="+region
+		case "sku":
+			sku = args[0]
+			upc, region, id, v = "upc-of-"+sku, "region-of-"+sku, "id-of-"+sku, typ+"/sku="+sku
+		case "id":
+			id = args[0]
+			upc, region, sku, v = "upc-of-"+id, "region-of-"+id, "sku-of-"+id, typ+"/id="+id
+		}
+		return `{"__typename":"` + typ + `","upc":` + q(upc) + `,"region":` + q(region) + `,"sku":` + q(sku) + `,"id":` + q(id) + `,"v":` + q(v) + `}`
 	case "Nested":
 		return `{"__typename":"Nested","owner":{"id":` + q(args[0]) + `,"v":"owner-of-nested"},"slot":` + args[1] + `,"v":` + q("Nested/"+args[0]+","+args[1]) + `}`
 	case "Req":
